@@ -456,6 +456,77 @@ def field_form_event_reset(P: Project, R: Report, module: str, rule: str) -> int
     return n
 
 
+FALSY_BUT_PRESENT = {"result": "{} / [] / 0 / \"\" / false / null are results", "id": "0 and \"\" are ids", "params": "{} and [] are params", "error": "an empty error object is still an error answer"}
+
+
+def payload_truthiness(P: Project, R: Report, modules, rule: str) -> int:
+    """No carrier decides what a parsed wire object *is* by the truthiness of a member that may be present and falsy:
+    `if data.get("result"):`, `any(data.get(m) for m in ("method", "result", "error"))`, `data["id"] and …`.  Presence is
+    `"result" in data` / `is not None`; a truthiness test drops or misroutes `"result": {}`, id 0, `"params": []`."""
+    from ..consteval import try_fold
+
+    n_sites = 0
+    for mod in modules:
+        m = P.module(mod)
+        for f in P.funcs_in(mod):
+            parents = {}
+            for x in ast.walk(f.node):
+                for c_ in ast.iter_child_nodes(x):
+                    parents[id(c_)] = x
+
+            def member_keys(e) -> list:
+                """the member names `e` may read, if `e` is `<x>.get(K…)` / `<x>[K]`"""
+                k = None
+                if isinstance(e, ast.Call) and isinstance(e.func, ast.Attribute) and e.func.attr == "get" and 1 <= len(e.args) <= 2 and not e.keywords:
+                    if len(e.args) == 2 and not (isinstance(e.args[1], ast.Constant) and not e.args[1].value):
+                        return []  # a truthy default changes the question
+                    k = e.args[0]
+                elif isinstance(e, ast.Subscript):
+                    k = e.slice
+                if k is None:
+                    return []
+                if isinstance(k, ast.Constant) and isinstance(k.value, str):
+                    return [k.value]
+                if isinstance(k, ast.Name):
+                    # the variable of a comprehension / loop over a constant tuple of member names
+                    for x in ast.walk(f.node):
+                        it = None
+                        if isinstance(x, ast.comprehension) and isinstance(x.target, ast.Name) and x.target.id == k.id:
+                            it = x.iter
+                        elif isinstance(x, (ast.For,)) and isinstance(x.target, ast.Name) and x.target.id == k.id:
+                            it = x.iter
+                        if it is not None:
+                            v = try_fold(P, m, it)
+                            if isinstance(v, (tuple, list, set, frozenset)) and all(isinstance(y, str) for y in v):
+                                return sorted(v)
+                return []
+
+            def in_truth_position(e) -> bool:
+                cur, child = parents.get(id(e)), e
+                while isinstance(cur, (ast.BoolOp,)) or (isinstance(cur, ast.UnaryOp) and isinstance(cur.op, ast.Not)):
+                    child, cur = cur, parents.get(id(cur))
+                if isinstance(cur, (ast.If, ast.While, ast.IfExp)) and cur.test is child:
+                    return True
+                if isinstance(cur, (ast.GeneratorExp, ast.ListComp)) and cur.elt is child:
+                    g = parents.get(id(cur))
+                    return isinstance(g, ast.Call) and isinstance(g.func, ast.Name) and g.func.id in ("any", "all")
+                if isinstance(cur, ast.comprehension) and child in cur.ifs:
+                    return True
+                if isinstance(cur, ast.Call) and isinstance(cur.func, ast.Name) and cur.func.id == "bool" and child in cur.args:
+                    return True
+                return False
+
+            for e in walk_local(f.node):
+                keys = [k for k in member_keys(e) if k in FALSY_BUT_PRESENT]
+                if not keys or not in_truth_position(e):
+                    continue
+                n_sites += 1
+                R.fn(f.fq)
+                R.ob(rule, f"{f.qual}: no wire member is judged by its truthiness", False, f"{f.module.rel}:{e.lineno}",
+                     f"`{ast.unparse(e)[:50]}` is used as a truth value for member(s) {keys}: {'; '.join(FALSY_BUT_PRESENT[k] for k in keys)} — a message carrying such a value is taken for something else (not a JSON-RPC message, not a response, not a request) and is dropped or misrouted on this carrier while the others deliver it")
+    return n_sites
+
+
 def _slice(stmts, names):
     """The statements that mention one of `names`, with the control structure around them."""
     out = []
@@ -794,7 +865,10 @@ def check(P: Project, R: Report) -> None:
         for i in sets:
             holder_ = _re.match(r"^setsid:([\w·]+)\.headers", evs[i])
             from_post = bool(holder_) and ".post(" in an.origin(holder_.group(1))
-            R.ob("R5", "the recorded value is the response's mcp-session-id header", from_post and "mcp-session-id" in evs[i].lower(), f"{rel}", evs[i] + (f" (origin `{an.origin(holder_.group(1))[:60]}`)" if holder_ else ""))
+            # … the header value itself: whatever the server issued is what later requests must carry, character for character
+            exact_ = bool(_re.fullmatch(r"setsid:[\w·]+\.headers(\[['\"]mcp-session-id['\"]\]|\.get\(['\"]mcp-session-id['\"](, [^()]*)?\))", evs[i], _re.I))
+            R.ob("R5", "the recorded value is the response's mcp-session-id header", from_post and "mcp-session-id" in evs[i].lower() and exact_, f"{rel}",
+                 evs[i] + (f" (origin `{an.origin(holder_.group(1))[:60]}`)" if holder_ else "") + ("" if exact_ else " — the header value is transformed before it is kept (split, stripped, decoded): a session id containing the characters involved is stored changed, and every later request carries an id the server never issued"))
 
     # ------------------------------------------------------------------ R2
     grammar_rule(P, R, A.MOD_HTTP, "R2", "")
@@ -810,6 +884,9 @@ def check(P: Project, R: Report) -> None:
     # a blank line ends the event: whatever name an `event:` line set does not survive it, dispatched or not
     blank_line_resets_event(P, R, A.MOD_HTTP, "R2")
     field_form_event_reset(P, R, A.MOD_HTTP, "R2")
+    # every message a body contains is yielded, whatever its values: nothing is filtered by the truthiness of a member
+    if payload_truthiness(P, R, [A.MOD_HTTP], "R2") == 0:
+        R.ob("R2", "no parsed object is filtered by the truthiness of result / error / id / params", True, "", "", sample="R2 http carrier: members are tested for presence, never for truth")
 
     # chunk- and terminator-independence of the two http recognisers
     from . import _chunks
